@@ -67,6 +67,11 @@ SCALAR_DOCS = {
 }
 
 
+# fully symbolic short texts (op 'all': every character is an unconstrained symbolic code point; the text below only fixes the length)
+SHORT_DOCS = {'short1': ('3.0', 'a'), 'short2': ('3.0', 'ab'), 'short3': ('3.0', 'abc'), 'short4': ('3.0', 'abcd'),
+              'short1v2': ('2.0', 'a'), 'short2v2': ('2.0', 'ab'), 'short3v2': ('2.0', 'abc'), 'short4v2': ('2.0', 'abcd')}
+
+
 def _digit_ranges():
     out, start = [], None
     for cp in range(0x80, 0x110000):
@@ -90,6 +95,29 @@ JSON_DOCS = {
     'jdt': ('3.0', 't:2021-03-04T05:06:07+05:30 Kolkata'), 'jdtz': ('2.0', 't:2021-03-04T05:06:07Z'), 'jdtf': ('3.0', 't:2021-03-04T05:06:07.125Z UTC'),
     'jcoord': ('3.0', 'c:37.5,-122.25'), 'jxstr': ('3.0', 'x:Span:2020-01'), 'jhex': ('3.0', 'x:hex:dead01'),
 }
+
+
+# partition of the whole code space for the first character of a fully symbolic text (one job per class)
+FIRST_PARTS = [[[0x30, 0x39]], [[0x41, 0x5a]], [[0x61, 0x7a]], [[0x22, 0x22]], [[0x60, 0x60]], [[0x40, 0x40]], [[0x2d, 0x2d]],
+               [[0x5b, 0x5b], [0x7b, 0x7b], [0x3c, 0x3c]], [[0, 0x21], [0x23, 0x2c]],
+               [[0x2e, 0x2f], [0x3a, 0x3b], [0x3d, 0x3f], [0x5c, 0x5f], [0x7c, 0x7f]], [[0x80, 0x10ffff]]]
+
+
+def _check_parts():
+    flat = sorted(r for part in FIRST_PARTS for r in part)
+    nxt = 0
+    for lo, hi in flat:
+        assert lo == nxt, 'FIRST_PARTS is not a partition at %x' % lo
+        nxt = hi + 1
+    assert nxt == 0x110000
+
+
+_check_parts()
+
+JSON_SHORT = {}
+for _n in range(1, 11):
+    JSON_SHORT['jshort%d' % _n] = ('3.0', 'abcdefghij'[:_n])
+    JSON_SHORT['jshort%dv2' % _n] = ('2.0', 'abcdefghij'[:_n])
 
 
 def _init_safe():
@@ -122,9 +150,15 @@ def run_doc(hz, ref, name, text, job, ex_factory):
     nparts = job.get('nparts', 1)
     for op in job.get('ops', ['replace', 'insert']):
         for i in positions:
-            if op == 'replace' and i >= len(text):
+            if op == 'all':
+                if i != 0:
+                    continue
+            elif op == 'replace2':
+                if i + 1 >= len(text) or i % step != job.get('phase', 0) % step:
+                    continue
+            elif op == 'replace' and i >= len(text):
                 continue
-            if op == 'replace' and i in always:
+            elif op == 'replace' and i in always:
                 if i % nparts != job.get('part', 0):
                     continue
             elif (i + (1 if op == 'insert' else 0)) % step != job.get('phase', 0) % step:
@@ -135,25 +169,39 @@ def run_doc(hz, ref, name, text, job, ex_factory):
             def body():
                 c = z3.Int('c')
                 tw.char_domain(ex, c, None)
+                syms = [c]
                 if job.get('alphabet'):
                     ex.assume(z3.Or(*[z3.And(c >= lo, c <= hi) for lo, hi in job['alphabet']]))
                 if job.get('ver_alphabet') and op == 'replace' and i in always:
                     ex.assume(z3.Or(*[z3.And(c >= lo, c <= hi) for lo, hi in job['ver_alphabet']]))
-                if job.get('no_unicode_digits'):
-                    for lo, hi in UNICODE_DIGIT_RANGES:
-                        ex.assume(z3.Or(c < lo, c > hi))
                 chars = [ord(x) for x in text]
                 if op == 'replace':
                     ex.assume(c != chars[i])
                     chars[i] = c
-                else:
+                elif op == 'insert':
                     chars.insert(i, c)
+                else:
+                    k = 2 if op == 'replace2' else len(text)
+                    syms = [c] + [z3.Int('c%d' % n) for n in range(1, k)]
+                    for v in syms[1:]:
+                        tw.char_domain(ex, v, None)
+                        if job.get('alphabet2'):
+                            ex.assume(z3.Or(*[z3.And(v >= lo, v <= hi) for lo, hi in job['alphabet2']]))
+                    if op == 'replace2':
+                        ex.assume(z3.And(c != chars[i], syms[1] != chars[i + 1]))
+                    for n, v in enumerate(syms):
+                        chars[i + n] = v
+                if job.get('no_unicode_digits'):
+                    for v in syms:
+                        for lo, hi in UNICODE_DIGIT_RANGES:
+                            ex.assume(z3.Or(v < lo, v > hi))
                 t = SymStr(chars)
 
                 def model():
                     if ex.check() != z3.sat:
                         return None
-                    return chr(ex.model().eval(c, model_completion=True).as_long())
+                    m = ex.model()
+                    return ''.join(chr(m.eval(v, model_completion=True).as_long()) for v in syms)
                 if prop == 'C12':
                     GF = sys.modules['hszinc.grid_filter']
                     try:
@@ -294,7 +342,7 @@ def run_job(job):
     logging.disable(logging.CRITICAL)
     hz = tw.load()
     ref = tw.json_ref(True) if job.get('json') else tw.zinc_ref(True)
-    docs = FILTER_DOCS if job.get('filter') else (JSON_DOCS if job.get('json') else (SCALAR_DOCS if job.get('scalar') else dict(GRID_DOCS, **C07_DOCS)))
+    docs = FILTER_DOCS if job.get('filter') else (dict(JSON_DOCS, **JSON_SHORT) if job.get('json') else (dict(SCALAR_DOCS, **SHORT_DOCS) if job.get('scalar') else dict(GRID_DOCS, **C07_DOCS)))
     _init_safe()
     t0 = time.time()
     allc, tot = [], None
@@ -323,10 +371,14 @@ def mutated(job, c):
     if job.get('filter'):
         text = FILTER_DOCS[c['doc']]
         return text if c['op'] == 'none' else ((text[:c['pos']] + c['char'] + text[c['pos'] + 1:]) if c['op'] == 'replace' else (text[:c['pos']] + c['char'] + text[c['pos']:]))
-    docs = JSON_DOCS if job.get('json') else (SCALAR_DOCS if job.get('scalar') else dict(GRID_DOCS, **C07_DOCS))
+    docs = dict(JSON_DOCS, **JSON_SHORT) if job.get('json') else (dict(SCALAR_DOCS, **SHORT_DOCS) if job.get('scalar') else dict(GRID_DOCS, **C07_DOCS))
     text = docs[c['doc']][1] if job.get('scalar') else docs[c['doc']]
     if c['op'] == 'none':
         return text
+    if c['op'] == 'all':
+        return c['char']
+    if c['op'] == 'replace2':
+        return text[:c['pos']] + c['char'] + text[c['pos'] + 2:]
     if c['op'] == 'replace':
         return text[:c['pos']] + c['char'] + text[c['pos'] + 1:]
     return text[:c['pos']] + c['char'] + text[c['pos']:]
@@ -337,7 +389,7 @@ def replay(hz, job, c):
     import importlib
     ref = importlib.import_module('vf.spec.json_ref' if job.get('json') else 'vf.spec.zinc_ref')
     prop, scalar = job['prop'], job.get('scalar', False)
-    version = ((JSON_DOCS if job.get('json') else SCALAR_DOCS)[c['doc']][0]) if scalar else None
+    version = ((dict(JSON_DOCS, **JSON_SHORT) if job.get('json') else dict(SCALAR_DOCS, **SHORT_DOCS))[c['doc']][0]) if scalar else None
     t = mutated(job, c)
     ZPE = sys.modules['hszinc.zincparser'].ZincParseException
     if prop == 'C12':
